@@ -31,6 +31,9 @@ KERNELS = {
     "rbf_active_perm": {"k": "rbf", "active_dims": [2, 0], "ard": True},
     "scale_active": {"k": "scale", "base": {"k": "matern", "nu": 2.5, "active_dims": [1, 2]}},
     "rq": {"k": "rq"},
+    "periodic": {"k": "periodic"},
+    "pp": {"k": "pp", "q": 2},
+    "cosine": {"k": "cosine"},
     "rff": {"k": "rff", "samples": 5},
     "rbf_times_index": {"k": "prod", "parts": [{"k": "rbf", "active_dims": [0, 1]}, {"k": "index", "tasks": 3, "active_dims": [2]}]},
     "index_col": {"k": "index", "tasks": 4, "rank": 2, "active_dims": [2]},
@@ -91,7 +94,7 @@ def cases(tier, seed):
         for pb, xb, xb2 in [(p_, x_, None) for p_, x_ in PATTERNS] + ASYM:
             if name == "lcm" and pb:
                 continue
-            if tier == "quick" and name in ("rff", "rbf_times_index", "index_col") and (xb2 is not None or (pb, xb) not in (([], []), ([2], [2]), ([], [2]), ([2], []))):
+            if tier == "quick" and name in ("rff", "rbf_times_index", "index_col", "periodic", "pp", "cosine") and (xb2 is not None or (pb, xb) not in (([], []), ([2], [2]), ([], [2]), ([2], []))):
                 continue
             if xb2 is not None and (name in GRADLIKE + ("lcm", "multitask") or (tier == "quick" and name not in ("rbf", "scale_active", "sum"))):
                 continue
@@ -137,6 +140,13 @@ def cases(tier, seed):
                 if xb2 is not None:
                     c["xbatch2"] = xb2
                 yield c
+    # far from the origin with a few rows against many (above the 25-row switch of the pairwise-distance routine on one side
+    # only): direct, swapped, lazy and stacked evaluations still agree
+    for name in ("rbf", "matern", "rq", "periodic", "pp", "cosine", "scale_active", "sum"):
+        if name not in KERNELS:
+            continue
+        for n1_, n2_ in ((3, 31), (31, 2), (1, 40)):
+            yield {"kind": "relations", "kernel": name, "pbatch": [], "xbatch": rnd.choice([[], [2]]), "n1": n1_, "n2": n2_, "far": rnd.choice([3e3, 3e4]), "seed": rnd.randrange(10**6)}
     yield from _chain_cases(tier, rnd)
 
 
@@ -194,6 +204,9 @@ def _data(case, g):
         x2 = x2 / x2.norm(dim=-1, keepdim=True) * (0.1 + 0.8 * util.rand(g, *x2.shape[:-1], 1))
         x1[..., 0, :] = 0.0
         x2[..., -1, :] = 0.0
+    if case.get("far"):
+        off = case["far"] * (1 + util.rand(g, D_IN))
+        x1, x2 = x1 + off, x2 + off
     if case["kernel"] in ("rbf_times_index", "index_col"):
         # the last column holds task indices
         import torch
